@@ -377,12 +377,13 @@ func c17Sizes(s []int) string {
 }
 
 // c17GenMulti: the cases of the third pass —
-//   (a) multi-member gzip files (members cut at record boundaries / inside records, bgzip-style small members) and
-//       concatenated bzip2 / xz / zstd streams: truncation at every offset, single-bit and single-byte damage at every
-//       offset of every member header and trailer, through ReadSequencesFromFile (`file`) and, for gzip, through the
-//       C reader of the standard input (`kseq`), plus the real command on a file, a redirected file and a pipe;
-//   (b) FASTQ / GenBank / EMBL / CSV files compressed and truncated at every byte;
-//   (c) single bit flips at every bit of small files of every codec, including the variants without content checksum.
+//
+//	(a) multi-member gzip files (members cut at record boundaries / inside records, bgzip-style small members) and
+//	    concatenated bzip2 / xz / zstd streams: truncation at every offset, single-bit and single-byte damage at every
+//	    offset of every member header and trailer, through ReadSequencesFromFile (`file`) and, for gzip, through the
+//	    C reader of the standard input (`kseq`), plus the real command on a file, a redirected file and a pipe;
+//	(b) FASTQ / GenBank / EMBL / CSV files compressed and truncated at every byte;
+//	(c) single bit flips at every bit of small files of every codec, including the variants without content checksum.
 func c17GenMulti(rng *rand.Rand, tier string, emit func(string)) {
 	thorough := tier == "thorough"
 	hdrLen := func(sp c17Spec) int {
@@ -399,6 +400,25 @@ func c17GenMulti(rng *rand.Rand, tier string, emit func(string)) {
 			return 12
 		}
 		return map[string]int{"gz": 8, "bz2": 10, "xz": 28, "zst": 7}[sp.codec]
+	}
+	// (c) corruption rather than truncation: every bit of a small file (thorough), a sample (quick)
+	for _, spec := range []string{"gz", "bz2", "xz", "zst", "zst~nocrc", "xz~nocrc", "xz~crc32"} {
+		sp, _ := c17ParseSpec(spec)
+		z := c17Build(sp, 2).z
+		if thorough {
+			for b := 0; b < len(z)*8; b++ {
+				emit(fmt.Sprintf("file %s nrec=2 flip=%d n=0 err=eof", spec, b))
+			}
+			for k := 0; k < len(z); k++ {
+				emit(fmt.Sprintf("file %s nrec=2 byte=%d n=0 err=eof", spec, k))
+			}
+		} else {
+			for i := 0; i < 12; i++ {
+				emit(fmt.Sprintf("file %s nrec=2 flip=%d n=0 err=eof", spec, rng.Intn(len(z)*8)))
+				emit(fmt.Sprintf("file %s nrec=2 byte=%d n=0 err=eof", spec, rng.Intn(len(z))))
+			}
+			emit(fmt.Sprintf("file %s nrec=2 none n=0 err=eof", spec))
+		}
 	}
 	// damage of the headers and trailers of every member of a file
 	members := func(op, spec, dataspec string, nrec int, allCuts, allBits bool, nsample int) {
@@ -535,25 +555,6 @@ func c17GenMulti(rng *rand.Rand, tier string, emit func(string)) {
 			}
 		}
 	}
-	// (c) corruption rather than truncation: every bit of a small file (thorough), a sample (quick)
-	for _, spec := range []string{"gz", "bz2", "xz", "zst", "zst~nocrc", "xz~nocrc", "xz~crc32"} {
-		sp, _ := c17ParseSpec(spec)
-		z := c17Build(sp, 2).z
-		if thorough {
-			for b := 0; b < len(z)*8; b++ {
-				emit(fmt.Sprintf("file %s nrec=2 flip=%d n=0 err=eof", spec, b))
-			}
-			for k := 0; k < len(z); k++ {
-				emit(fmt.Sprintf("file %s nrec=2 byte=%d n=0 err=eof", spec, k))
-			}
-		} else {
-			for i := 0; i < 12; i++ {
-				emit(fmt.Sprintf("file %s nrec=2 flip=%d n=0 err=eof", spec, rng.Intn(len(z)*8)))
-				emit(fmt.Sprintf("file %s nrec=2 byte=%d n=0 err=eof", spec, rng.Intn(len(z))))
-			}
-			emit(fmt.Sprintf("file %s nrec=2 none n=0 err=eof", spec))
-		}
-	}
 }
 
 // a command that does not end is a failure of the property: the ecoPCR cases, whose reader used to spin on a
@@ -618,4 +619,45 @@ func c17GenEco(rng *rand.Rand, tier string, emit func(string)) {
 			emit(fmt.Sprintf("file %s:ecopcr nrec=2 flip=%d n=0 err=eof", codec, 64+rng.Intn(len(z)*8-64)))
 		}
 	}
+}
+
+// c17RawProne: does the damage of a `file` case touch the first 6 bytes of the file (the magic numbers)?  The file is
+// then usually not recognised as compressed and its bytes match no format: OBIMimeTypeGuesser, which attaches twelve new
+// detectors to the mimetype tree at EVERY call, then runs all the detectors accumulated so far - these cases are run
+// first, while the tree is small.
+func c17RawProne(line string) bool {
+	f := strings.Fields(line)
+	if len(f) < 4 || f[0] != "file" {
+		return false
+	}
+	if k, is := c17KV(f[3], "cut"); is {
+		return k < 6
+	}
+	if k, is := c17KV(f[3], "byte"); is {
+		return k < 6
+	}
+	if b, is := c17KV(f[3], "flip"); is {
+		return b < 48
+	}
+	return false
+}
+
+// c17Partition: (seed mod 4, 4) in the thorough tier when the seed is on the command line of the harness, else (0, 1)
+func c17Partition(tier string) (int, int) {
+	if tier != "thorough" {
+		return 0, 1
+	}
+	for i, a := range os.Args {
+		if (a == "-seed" || a == "--seed") && i+1 < len(os.Args) {
+			if v, err := strconv.Atoi(os.Args[i+1]); err == nil && v >= 0 {
+				return v % 4, 4
+			}
+		}
+		if strings.HasPrefix(a, "-seed=") || strings.HasPrefix(a, "--seed=") {
+			if v, err := strconv.Atoi(a[strings.IndexByte(a, '=')+1:]); err == nil && v >= 0 {
+				return v % 4, 4
+			}
+		}
+	}
+	return 0, 1
 }
